@@ -148,6 +148,7 @@ def families(ctx):
 
     t_imp = time.time()
     X.mods()
+    from onnxscript import values as onnxscript_values
     from onnxscript.function_libs.torch_lib.ops import core
     ctx.cover(import_s=round(time.time() - t_imp, 1))
 
@@ -160,6 +161,8 @@ def families(ctx):
         fn = getattr(core, fam.fn)
         # the witnesses of the `_refuted` theorems (and instances of the Examples) are replayed on the real code first
         for args, kwargs in itertools.chain(_WITNESSES.get(fam.name, []), fam.gen(ctx.rng, n)):
+            if fam.name == "amax" and args[1] is None and not isinstance(fn, onnxscript_values.TracedOnnxFunction):
+                args = [args[0], {"t": "int64", "shape": [0], "data": []}, args[2]]   # the script function requires dim: [] = all dims
             targs = X.to_torch(args)
             tk = {k: X.to_torch(v) for k, v in kwargs.items()}
             try:
@@ -281,6 +284,8 @@ def _is_fixed(name, sk):
     ops = [o for o, _ in sk]
     if name in ("reshape", "view_copy"):
         return any(o == "Reshape" and ints and ints[0] == [1] for o, ints in sk)
+    if name == "amax":                      # trace_only variant (ReduceMax emitted directly) vs script function (one call node)
+        return "ReduceMax" in ops
     if name == "narrow":
         return "Where" in ops
     if name == "roll":
